@@ -84,7 +84,7 @@ def gen_route(rng, L):
     elif fam == 'slice':
         r['pre'] = rng.choice([0, 1, 3, 8, 9])
         r['post'] = rng.choice([0, 1, 5, 8])
-        r['how'] = rng.choice(['slice', 'ctor-of-slice', 'copy', 'deepcopy-ish', 'cut', 'read'])
+        r['how'] = rng.choice(['slice', 'ctor-of-slice', 'copy', 'deepcopy-ish', 'cut', 'read', 'deepcopy', 'pickle', 'pickle-of-slice'])
     elif fam == 'iterable':
         r['how'] = rng.choice(['list', 'tuple', 'gen', 'bitarray', 'strings', 'bitarray-little', 'bitarray=little', 'frozenbitarray'])
     elif fam == 'auto-bytes':
@@ -222,6 +222,14 @@ def build(cls, bits, r, files):
             return copy.copy(mk(cls, bits)), bits
         if how == 'deepcopy-ish':
             return cls(mk(cls, bits)), bits
+        if how == 'deepcopy':
+            return copy.deepcopy(mk(cls, bits)), bits
+        if how == 'pickle':
+            import pickle
+            return pickle.loads(pickle.dumps(mk(cls, bits))), bits
+        if how == 'pickle-of-slice':
+            import pickle
+            return pickle.loads(pickle.dumps(big[a:z])), bits
         if how == 'cut':
             if not L:
                 raise Skip
